@@ -1,0 +1,27 @@
+"""Verification hooks (no-ops unless the environment variable AGILERL_VERIF=1 is set).
+
+When enabled, selected intermediate values that are otherwise local to a method are
+appended to an in-process list that an external verification harness reads with
+``drain()``. Nothing is recorded, copied or retained when the guard is off.
+"""
+
+import os
+from typing import Any, Dict, List, Tuple
+
+_RECORDS: List[Tuple[str, Dict[str, Any]]] = []
+
+
+def enabled() -> bool:
+    return os.environ.get("AGILERL_VERIF") == "1"
+
+
+def record(name: str, **fields: Any) -> None:
+    if not enabled():
+        return
+    _RECORDS.append((name, fields))
+
+
+def drain() -> List[Tuple[str, Dict[str, Any]]]:
+    out = list(_RECORDS)
+    _RECORDS.clear()
+    return out
